@@ -1,1 +1,95 @@
-fn main() { println!("hello"); }
+//! tcsim — deterministic simulation with fault injection for TaskChampion.
+//!
+//!   tcsim check <ID> <quick|thorough>      run a check (parent: spawns worker processes)
+//!   tcsim worker <ID> <tier> <seed> <first> <count> <stride>   (internal) execute runs
+//!   tcsim replay <file>                    re-execute a replay file in this process
+//!   tcsim selftest determinism [ID…]       run seeds twice in separate processes, compare logs
+//!
+//! Exit codes: 0 held / only known findings; 1 violation (prints `VIOLATION property=… replay=…`);
+//! 2 harness error.
+
+mod exec;
+mod fam_a;
+mod interpose;
+mod model;
+mod pool;
+mod rng;
+mod simserver;
+mod simstorage;
+
+use serde::{Deserialize, Serialize};
+use std::collections::BTreeMap;
+
+#[derive(Clone, Debug, Serialize, Deserialize, PartialEq, Eq)]
+pub struct Violation {
+    /// which oracle fired, e.g. "convergence", "invariant", "conservation.lost"
+    pub oracle: String,
+    /// discriminators that, together with the oracle, identify the violation class
+    pub sig: String,
+    pub detail: String,
+}
+
+impl Violation {
+    pub fn class(&self) -> String {
+        format!("{}|{}", self.oracle, self.sig)
+    }
+}
+
+#[derive(Clone, Debug, Default, Serialize, Deserialize)]
+pub struct RunResult {
+    pub violations: Vec<Violation>,
+    pub trace_hash: u64,
+    pub state_hash: u64,
+    pub fired: BTreeMap<String, u64>,
+    pub probes: BTreeMap<String, u64>,
+    pub points: BTreeMap<String, u64>,
+    pub sim_seconds: f64,
+    pub steps: u64,
+    /// did the property's own rare condition occur in this run
+    pub nontrivial: bool,
+    /// a textual event log (only filled when requested: replay / determinism selftest)
+    pub log: Vec<String>,
+}
+
+/// Static description of one check.
+pub struct CheckDef {
+    pub id: &'static str,
+    pub level: &'static str,
+    pub runs_quick: u64,
+    pub runs_thorough: u64,
+    pub rule: &'static str,
+    pub gen: fn(seed: u64, i: u64, thorough: bool) -> serde_json::Value,
+    pub run: fn(sc: &serde_json::Value, want_log: bool) -> RunResult,
+    pub shrink: fn(sc: &serde_json::Value) -> Vec<serde_json::Value>,
+    pub real: &'static [&'static str],
+    pub stub: &'static [&'static str],
+    pub assumptions: &'static [&'static str],
+}
+
+pub fn checks() -> Vec<CheckDef> {
+    let mut v = Vec::new();
+    v.extend(fam_a::checks());
+    v
+}
+
+pub fn find_check(id: &str) -> Option<CheckDef> {
+    checks().into_iter().find(|c| c.id == id)
+}
+
+pub const DEFAULT_SEED: u64 = 20260923;
+
+fn main() {
+    let args: Vec<String> = std::env::args().collect();
+    let code = match args.get(1).map(|s| s.as_str()) {
+        Some("check") => pool::cmd_check(&args[2..]),
+        Some("worker") => pool::cmd_worker(&args[2..]),
+        Some("replay") => pool::cmd_replay(&args[2..]),
+        Some("selftest") => pool::cmd_selftest(&args[2..]),
+        Some("gen") => pool::cmd_gen(&args[2..]),
+        _ => {
+            eprintln!("usage: tcsim check <ID> <quick|thorough> | replay <file> | selftest determinism [ID…]");
+            2
+        }
+    };
+    std::process::exit(code);
+}
